@@ -100,6 +100,39 @@ Definition DCR_t5 : rx := Cat (optg 43 (Cat SPr (lit s_MUST (Cat SPr (Group 44 (
 Definition DCR_t4 : rx := Cat (optg 20 (Cat SPr (lit s_AUX (Cat SPr (Group 21 (OIDSr 22)))))) DCR_t5.
 Definition R_dcr : rx := HEADr DCR_t4.
 
+(* attribute types *)
+Definition s_EQUALITY : list N := [69; 81; 85; 65; 76; 73; 84; 89]%N.
+Definition s_ORDERING : list N := [79; 82; 68; 69; 82; 73; 78; 71]%N.
+Definition s_SUBSTR : list N := [83; 85; 66; 83; 84; 82]%N.
+Definition s_SYNTAX : list N := [83; 89; 78; 84; 65; 88]%N.
+Definition s_SINGLE : list N := [83; 73; 78; 71; 76; 69; 45; 86; 65; 76; 85; 69]%N.
+Definition s_COLLECTIVE : list N := [67; 79; 76; 76; 69; 67; 84; 73; 86; 69]%N.
+Definition s_NOUSERMOD : list N := [78; 79; 45; 85; 83; 69; 82; 45; 77; 79; 68; 73; 70; 73; 67; 65; 84; 73; 79; 78]%N.
+Definition s_USAGE : list N := [85; 83; 65; 71; 69]%N.
+Definition u_user : list N := [117;115;101;114;65;112;112;108;105;99;97;116;105;111;110;115]%N.
+Definition u_dir : list N := [100;105;114;101;99;116;111;114;121;79;112;101;114;97;116;105;111;110]%N.
+Definition u_dist : list N := [100;105;115;116;114;105;98;117;116;101;100;79;112;101;114;97;116;105;111;110]%N.
+Definition u_dsa : list N := [100;83;65;79;112;101;114;97;116;105;111;110]%N.
+(* one OID in its own group ; groups g .. g+5 *)
+Definition OID1 (g : nat) : rx := Group g (OIDr (g + 1)).
+(* NUMERICOID with an optional {length} ; groups g .. g+4 *)
+Definition LENr (g : nat) : rx := optg g (Cat (ch 123) (Cat (Group (g + 1) NUM) (ch 125))).
+Definition NOIDLENr (g : nat) : rx := Cat (Group g NUM) (Cat (Cat (DOTNUM (S g)) (Star (DOTNUM (S g)))) (LENr (g + 3))).
+Definition USAGEr : rx := Alt (lit' u_user) (Alt (lit' u_dir) (Alt (lit' u_dist) (lit' u_dsa))).
+Definition AT_t13 : rx := Cat (Group 65 (EXTr 66)) (Cat WSPr (ch 41)).
+Definition AT_t12 : rx := Cat (optg 63 (Cat SPr (lit s_USAGE (Cat SPr (Group 64 USAGEr))))) AT_t13.
+Definition AT_t11 : rx := Cat (optg 62 (Cat SPr (lit' s_NOUSERMOD))) AT_t12.
+Definition AT_t10 : rx := Cat (optg 61 (Cat SPr (lit' s_COLLECTIVE))) AT_t11.
+Definition AT_t9 : rx := Cat (optg 60 (Cat SPr (lit' s_SINGLE))) AT_t10.
+Definition AT_t8 : rx := Cat (optg 52 (Cat SPr (lit s_SYNTAX (Cat SPr (Group 53 (Alt (NOIDLENr 54) (QDSTRINGr 59))))))) AT_t9.
+Definition AT_t7 : rx := Cat (optg 44 (Cat SPr (lit s_SUBSTR (Cat SPr (Group 45 (OID1 46)))))) AT_t8.
+Definition AT_t6 : rx := Cat (optg 36 (Cat SPr (lit s_ORDERING (Cat SPr (Group 37 (OID1 38)))))) AT_t7.
+Definition AT_t5 : rx := Cat (optg 28 (Cat SPr (lit s_EQUALITY (Cat SPr (Group 29 (OID1 30)))))) AT_t6.
+Definition AT_t4 : rx := Cat (optg 20 (Cat SPr (lit s_SUP (Cat SPr (Group 21 (OID1 22)))))) AT_t5.
+Definition R_at : rx := HEADr AT_t4.
+(* the pattern that splits "oid{len}" *)
+Definition R_noidlen : rx := Cat (Group 1 (NUMOID 2)) (Cat (ch 123) (Cat (Group 5 (Group 6 NUM)) (ch 125))).
+
 (* first differing pair of subterms, for maintenance *)
 Fixpoint rx_diff (a b : rx) : option (rx * rx) :=
   match a, b with
@@ -119,4 +152,9 @@ Lemma oc_regex_eq : rx_object_class = R_oc.
 Proof. vm_compute. reflexivity. Qed.
 
 Lemma dcr_regex_eq : rx_dit_content_rule = R_dcr.
+Proof. vm_compute. reflexivity. Qed.
+
+Lemma at_regex_eq : rx_attribute_type = R_at.
+Proof. vm_compute. reflexivity. Qed.
+Lemma noidlen_regex_eq : rx_noidlen = R_noidlen.
 Proof. vm_compute. reflexivity. Qed.
